@@ -256,10 +256,17 @@ def R3_lock(run):
     for name in ("validate_owner", "unfreeze_user_position_token_2022", "transfer_user_position_token_2022", "freeze_user_position_token_2022", "close_empty_token_account_2022", "LockConfig::update_position_owner"):
         cs = calls_to(h, ends(name))
         seq.append((name, cs))
+    inplace = None
+    if not seq[0][1]:
+        # the owner check written in place (same two tests, same error): its block stands for the call
+        from rules.C04 import inplace_owner_check
+        inplace = inplace_owner_check(h)
+        if inplace is not None and inplace[3]:
+            seq[0] = ("validate_owner", [(inplace[0], None, [inplace[1], inplace[2]])])
     ok = all(len(cs) == 1 for _, cs in seq)
     if ok:
         blocks = [cs[0][0] for _, cs in seq]
-        ok = all(cfg.dominates(h, blocks[i], blocks[i + 1]) for i in range(len(blocks) - 1)) and all(cfg.must_pass_call(h, b)[0] for b in blocks[:-1])
+        ok = all(cfg.dominates(h, blocks[i], blocks[i + 1]) for i in range(len(blocks) - 1)) and all(cfg.must_pass_call(h, b)[0] for b in (blocks[1:-1] if inplace else blocks[:-1]))
     run.check("R3", "transfer-sequence", ok, "transfer_locked_position is not owner check -> unfreeze -> transfer -> freeze -> close -> owner update, each must-pass in this order", loc=h.loc(),
               detail="validate_owner? ; unfreeze? ; transfer? ; freeze? ; close? ; update_position_owner")
     if ok:
